@@ -1285,3 +1285,146 @@ def positional_controls(ctx, rule):
     for name, expect in (("xmlnav::by_position", True), ("xmlnav::by_index", True), ("xmlnav::by_name", False)):
         fs = [prog.fn(name)] + list(prog.closures_of(prog.fn(name)))
         ctx.control(rule, name, bool(_positional_hits(prog, fs)), expect)
+
+
+_ALTERING = ("filter", "take_if", "clamp", "max", "min", "abs", "round", "floor", "ceil", "trunc", "rem_euclid", "signum", "to_radians", "to_degrees",
+             "saturating_sub", "saturating_add", "wrapping_add", "wrapping_sub", "trim", "trim_start", "trim_end", "to_lowercase", "to_uppercase", "replace")
+
+
+def read_values_unaltered(ctx, prog, rule):
+    """what a from_node function stores in a descriptor field is the value its lookup parsed (or the documented default
+    when the element is absent): no filter on the value, no arithmetic, no clamping between the lookup and the field -
+    a value the writer can produce must come back as it was written"""
+    n = 0
+    for label, adt, wfn, rfns in STRUCTS:
+        for fp in rfns:
+            fn = prog.fns.get(fp)
+            if fn is None:
+                continue
+            ctx.fn_seen(fn)
+            R = Resolver(fn)
+            for bi in fn.cfg():
+                for st in fn.blocks[bi]["stmts"]:
+                    rv = st["rv"]
+                    if rv["k"] != "aggregate" or rv["kind"].get("agg") != "adt" or rv["kind"]["adt"].startswith("std::") or rv["kind"]["adt"].startswith("core::"):
+                        continue
+                    for name, op in zip(rv["kind"]["fields"], rv["ops"]):
+                        t = R.operand(op)
+                        looks = [x for x in leaves(t) if x[0] == "call" and (x[1] in xmlgen.HELPER_TYPES or x[1].endswith("::parse") or x[1].endswith("Node<'a, 'input>::text") or x[1].endswith("::attribute"))]
+                        if not looks:
+                            continue
+                        ts = strip(t)
+                        if ts[0] == "agg" and ts[1][0] == "adt" and ts[1][2] not in ("Some", "Ok"):
+                            continue            # a nested descriptor literal: judged field by field on its own
+                        n += 1
+                        bad = []
+
+                        def tag_of(x):
+                            for a in x[2]:
+                                a = strip(a)
+                                if a[0] == "const" and isinstance(a[2], str):
+                                    return a[2]
+                            return None
+
+                        def primary(x, depth=0):
+                            # the lookup whose value the field takes: reachable without arithmetic (defaults spelled as
+                            # a match arm or an unwrap_or argument may be computed from other lookups)
+                            if depth > 30:
+                                return set()
+                            if x in looks:
+                                return {tag_of(x)}
+                            k = x[0]
+                            out = set()
+                            if k == "call":
+                                last = x[1].rsplit("::", 1)[-1].split("<")[0]
+                                args = x[2][:1] if last in ("unwrap_or", "unwrap_or_else", "unwrap_or_default", "map_or", "map_or_else", "ok_or", "ok_or_else") + _ALTERING else x[2]
+                                for a in args:
+                                    out |= primary(a, depth + 1)
+                            elif k in ("unop", "cast"):
+                                out |= primary(x[2], depth + 1)
+                            elif k in ("field", "ok", "discr", "partial", "ref"):
+                                out |= primary(x[1], depth + 1)
+                            elif k == "agg":
+                                for a in x[2]:
+                                    out |= primary(a, depth + 1)
+                            elif k == "phi":
+                                for a in x[1]:
+                                    out |= primary(a, depth + 1)
+                            return out
+                        prim = primary(t) - {None}
+
+                        def has_look(x):
+                            return any(y in looks and tag_of(y) in prim for y in leaves(x))
+
+                        def walk(x, depth=0):
+                            # follows the *value* from the lookup to the field; default arguments (`unwrap_or(<default>)`)
+                            # may be computed from other fields
+                            if depth > 30:
+                                return
+                            k = x[0]
+                            if k == "call":
+                                last = x[1].rsplit("::", 1)[-1].split("<")[0]
+                                if last in _ALTERING and x[2] and has_look(x[2][0]):
+                                    bad.append(short(x[1]))
+                                if last in ("unwrap_or", "unwrap_or_else", "unwrap_or_default", "map_or", "map_or_else", "ok_or", "ok_or_else") and x[2]:
+                                    walk(x[2][0], depth + 1)
+                                    return
+                                for a in x[2]:
+                                    walk(a, depth + 1)
+                            elif k == "binop":
+                                if x[1] in ("Add", "Sub", "Mul", "Div", "Rem", "BitAnd", "BitOr", "Shl", "Shr") and (has_look(x[2]) or has_look(x[3])):
+                                    bad.append(x[1])
+                                walk(x[2], depth + 1)
+                                walk(x[3], depth + 1)
+                            elif k in ("unop", "cast"):
+                                walk(x[2], depth + 1)
+                            elif k in ("field", "ok", "discr", "partial", "ref"):
+                                walk(x[1], depth + 1)
+                            elif k == "agg":
+                                for a in x[2]:
+                                    walk(a, depth + 1)
+                            elif k == "phi":
+                                for a in x[1]:
+                                    walk(a, depth + 1)
+                        walk(t)
+                        if bad:
+                            ctx.ob(rule, "read-value-unaltered/%s.%s" % (rv["kind"]["adt"].rsplit("::", 1)[-1], name), False,
+                                   "%s.%s is the parsed value passed through %s before it is stored (%s)" % (rv["kind"]["adt"].rsplit("::", 1)[-1], name, sorted(set(bad)), tree_str(strip_deep(t))[:140]), where=fn.file_line(bi))
+    ctx.ob(rule, "read-values-unaltered", True, "%d descriptor fields take a parsed lookup value; each was searched for value filters / arithmetic between lookup and field" % n, nontrivial=False)
+    ctx.floor(rule, "descriptor fields fed by a lookup", n, 60, semantic=False)
+
+
+def _local_name_compares(prog, fns):
+    """comparisons in which both sides are the local tag name of a record name (`a.name.tag_name() == b.name.tag_name()`)"""
+    hits = []
+    for f in fns:
+        R = Resolver(f, max_depth=16)
+        for bi, t in f.calls(lambda c, t: c.rsplit("::", 1)[-1] in ("eq", "ne", "cmp", "partial_cmp", "contains", "starts_with") and len(t["args"]) >= 2):
+            sides = [R.operand(a) for a in t["args"][:2]]
+
+            def is_tag(x):
+                return any(y[0] == "call" and y[1].rsplit("::", 1)[-1] == "tag_name" for y in leaves(x)) or any(
+                    y[0] == "field" and isinstance(y[2], str) and y[2].endswith("__tag_name") for y in leaves(x)) or any(
+                    y[0] == "local" and isinstance(y[1], int) and y[1] < len(f.locals) and (f.locals[y[1]].get("name") or "") == "tag_name" for y in leaves(x))
+            if is_tag(sides[0]) and is_tag(sides[1]):
+                hits.append((f, bi))
+    return hits
+
+
+def no_local_name_identity(ctx, prog, rule):
+    """two prototype records are the same attribute only if namespace *and* name agree: nothing in the library decides
+    identity (duplicates, lookups) by comparing local tag names with each other"""
+    fns = [f for p, f in sorted(prog.fns.items())]
+    hits = _local_name_compares(prog, fns)
+    for f, bi in hits:
+        ctx.fn_seen(f)
+        ctx.ob(rule, "local-name-identity/%s" % (short(f.path) if "closure" not in f.path else f.path.split("::", 1)[-1]), False,
+               "%s compares the local tag names of two record names: extension attributes of different namespaces with the same local name are taken for the same attribute" % short(f.path), where=f.file_line(bi))
+    ctx.ob(rule, "local-name-identity/none", not hits, "no comparison between two local tag names (%d functions searched)" % len(fns), nontrivial=False)
+
+
+def local_name_controls(ctx, rule):
+    prog, info = load_program("controls", "controls")
+    ctx.configs["controls"] = info
+    for name, expect in (("xmlnav::same_local", True), ("xmlnav::same_name", False)):
+        ctx.control(rule, name, bool(_local_name_compares(prog, [prog.fn(name)])), expect)
